@@ -190,7 +190,9 @@ def real_session_problems(scenario, sim, timeout_s=90.0):
     from vf.sim.realrun import run_real_session
     rr = run_real_session(scenario, timeout_s)
     if rr.timed_out:
-        raise Inconclusive(f'real-socket session did not finish within {timeout_s}s (wall-clock safety net)')
+        # wall-clock safety net: says nothing about the property (a loaded machine, a port taken by somebody else) -
+        # the case is skipped and counted, never reported
+        return None
     out = []
     if rr.server_exc is not None:
         out.append(('real threads: table manager raised with four conforming clients', {'exception': repr(rr.server_exc)[:300], 'tb': (rr.server_tb or '')[-500:]}))
